@@ -373,18 +373,30 @@ async def _run_case(case, max_concurrent=1):
     return tr
 
 
-def run_case(case, prec=28, max_concurrent=1):
+def run_case(case, prec=28, max_concurrent=1, rounding=None):
     """Run the real exchange. Returns a Trace."""
     import copy
     case = copy.deepcopy(case)
     ctx = decimal.getcontext()
-    old = ctx.prec
+    old, old_rounding = ctx.prec, ctx.rounding
     ctx.prec = prec
+    if rounding is not None:
+        ctx.rounding = rounding
     logging.getLogger("basana").setLevel(logging.CRITICAL + 1)
+    from basana.core import helpers as core_helpers
+    orig_round = core_helpers.round_decimal
+    if rounding is not None:
+        # the directed context rounding is meant for inexact arithmetic only: round_decimal() called without a
+        # rounding mode keeps the default mode of the decimal module it relies on
+        def round_decimal(value, precision, rounding=None):
+            return orig_round(value, precision, rounding if rounding is not None else decimal.ROUND_HALF_EVEN)
+        core_helpers.round_decimal = round_decimal
     try:
         tr = asyncio.run(_run_case(case, max_concurrent=max_concurrent))
     finally:
         ctx.prec = old
+        ctx.rounding = old_rounding
+        core_helpers.round_decimal = orig_round
     tr.case = case
     return tr
 
@@ -394,10 +406,18 @@ def expected_sums(tr):
 
 
 def run_exact(case):
-    """Runs at precision 28 and 100; returns (trace28, exact?)"""
+    """Runs at the default decimal context (28 digits, half-even) and at 100 digits with the context rounding every
+    inexact operation down, then up; returns (trace28, exact?).  The three runs observe the same values exactly when
+    no inexact decimal operation (a division by a price, say) influenced anything observable -- also when the exact
+    value sits on a truncation boundary, where two precisions alone would agree with each other and not with the
+    exact rational arithmetic of the model."""
     t28 = run_case(case, 28)
-    t100 = run_case(case, 100)
-    exact = expected_sums(t28) == expected_sums(t100)
+    ref = expected_sums(t28)
+    exact = True
+    for rounding in (decimal.ROUND_FLOOR, decimal.ROUND_CEILING):
+        if expected_sums(run_case(case, 100, rounding=rounding)) != ref:
+            exact = False
+            break
     return t28, exact
 
 
